@@ -64,6 +64,7 @@ def ref_swap(xs, m):
 def shards(tier, seed):
     if tier == "quick":
         out = [{"kind": "perm", "lo": lo, "hi": lo + 76} for lo in range(0, 301, 76)]
+        out += [{"kind": "perm", "lo": n, "hi": n + 1, "big": True} for n in (511, 512, 1000, 4097, 65535, 65536, 65537, 70001)]
         out += [{"kind": "flip"}]
         out += [{"kind": "swap_patterns", "maxlen": 10, "part": p, "parts": 4} for p in range(4)]
         out += [{"kind": "swap_random", "n": 5000, "part": p} for p in range(2)]
@@ -95,6 +96,8 @@ def labelled(n, which):
         return bytes(i % 256 for i in range(n))
     if which == 1:
         return bytes((i // 256) % 256 for i in range(n))
+    if which == 3:
+        return bytes((i // 65536) % 256 for i in range(n))
     return bytes((i * 7 + 3) % 251 for i in range(n))
 
 
@@ -106,7 +109,7 @@ def run(shard, rec, tier, seed):
     assert ref_interleave([0, 1, 2, 3, 4, 5]) == [0, 5, 1, 4, 2, 3] and ref_deinterleave([0, 1, 2, 3, 4, 5]) == [0, 2, 4, 5, 3, 1]
     assert ref_swap([10, 21, 27], 3) == [10, 27, 21]
     if kind == "perm":
-        for n in range(shard["lo"], min(shard["hi"], 5001 if tier == "thorough" else 301)):
+        for n in range(shard["lo"], shard["hi"] if shard.get("big") else min(shard["hi"], 5001 if tier == "thorough" else 301)):
             for fname, reff, inv in (("interleave", ref_interleave, "deinterleave"), ("deinterleave", ref_deinterleave, "interleave")):
                 outs = []
                 for which in (0, 1, 2):
@@ -124,7 +127,7 @@ def run(shard, rec, tier, seed):
                         rec.violation("inverse", "%s(%s(x)) != x at length %d" % (inv, fname, n), {"f": fname, "n": n})
                     rec.count("perm")
                     rec.count("inverse")
-                if len(outs) == 3 and n <= 65536:
+                if len(outs) == 3 and n <= 65536:  # two label bytes identify a position up to 65536
                     # recover the permutation from labellings 0 and 1 and compare it with labelling 2
                     perm = [outs[0][j] + 256 * outs[1][j] for j in range(n)]
                     lab2 = labelled(n, 2)
